@@ -78,3 +78,30 @@ def same_double(a, b):
     if a != a and b != b:
         return True
     return struct.pack('<d', a) == struct.pack('<d', b)
+
+THDM_SRCS = ['src/THDM/THDM.cpp', 'src/THDM/THDM_mass_eigenstates.cpp', 'src/THDM/THDM_parameters.cpp', 'src/THDM/THDM_problems.cpp',
+             'src/SM/SM.cpp', 'src/gm2_mf.cpp', 'src/gm2_numerics.cpp']
+
+def build_program(wd, main_src, link_cpp, repo=None, name='prog'):
+    """compile a C++ program (text) against real sources from the working tree"""
+    repo = repo or REPO
+    src = os.path.join(wd, name + '.cpp')
+    with open(src, 'w') as f:
+        f.write(main_src.replace('@REPO@', repo))
+    objs = []
+    procs = []
+    for c in link_cpp:
+        o = os.path.join(wd, c.replace('/', '_') + '.o')
+        if not os.path.exists(o):
+            procs.append((c, o, subprocess.Popen(['g++'] + CXXFLAGS + includes(repo) + ['-c', os.path.join(repo, c), '-o', o],
+                                                 stdout=subprocess.PIPE, stderr=subprocess.PIPE, text=True)))
+        objs.append(o)
+    for c, o, p in procs:
+        out, err = p.communicate()
+        if p.returncode != 0:
+            raise NativeError('compile %s failed:\n%s' % (c, err[-3000:]))
+    exe = os.path.join(wd, name + '.x')
+    r = subprocess.run(['g++'] + CXXFLAGS + includes(repo) + [src] + objs + ['-o', exe], capture_output=True, text=True)
+    if r.returncode != 0:
+        raise NativeError('program build failed:\n%s' % r.stderr[-3000:])
+    return exe
